@@ -213,6 +213,15 @@ pub fn target_name() -> impl Strategy<Value = NameSpec> {
             l.push(b"outside".to_vec());
             NameSpec::Abs(l)
         }),
+        // out-of-zone targets of one label that swallows a whole apex of the pool (test., sub.test., example.,
+        // Zone.example.): fewer labels than the apex, same wire-form tail
+        1 => prop_oneof![
+            Just(NameSpec::Abs(vec![b"x\x04test".to_vec()])),
+            Just(NameSpec::Abs(vec![b"x\x03sub\x04test".to_vec()])),
+            Just(NameSpec::Abs(vec![b"x\x07example".to_vec()])),
+            Just(NameSpec::Abs(vec![b"x\x04Zone\x07example".to_vec()])),
+            Just(NameSpec::Abs(vec![b"www".to_vec(), b"x\x04test".to_vec()])),
+        ],
     ]
 }
 
